@@ -4,6 +4,7 @@ import (
 	"bytes"
 	"crypto/x509"
 	"fmt"
+	"github.com/google/gce-tcb-verifier/sign/gcsca"
 	"math/big"
 	"strings"
 	"time"
@@ -63,6 +64,12 @@ type c12Model struct {
 	staleDER    []byte
 	staleShape  string
 	keysWiped   bool // a `wipeout keys|all` succeeded since the last successful bootstrap
+	// excused: former primaries whose destruction the key service refused during a rotation that
+	// reported the failure. The operator was told; nothing in the command set retries it.
+	excused map[string]bool
+	// refusedNow: the command being checked did everything but its last step (the key service
+	// refused the destroy), so its effects on the authority are those of a completed command.
+	refusedNow bool
 }
 
 // hugeSerial draws a serial number beyond 64 bits (legal: serials are arbitrary-precision).
@@ -92,7 +99,7 @@ func runC12(r *core.Run) {
 		off := []int{-8, -3, 2, 5, 9}[r.Intn(5, "zone")]
 		a.Zone = time.FixedZone(fmt.Sprintf("UTC%+d", off), off*3600+[]int{0, 1800}[r.Intn(2, "half-hour")])
 	}
-	m := &c12Model{everPrimary: map[string][]byte{}, allNames: map[string]bool{}, stamps: map[int64]bool{}}
+	m := &c12Model{everPrimary: map[string][]byte{}, allNames: map[string]bool{}, stamps: map[int64]bool{}, excused: map[string]bool{}}
 	rootStart := time.Time{}
 	var hist []string
 	changes := 0
@@ -175,7 +182,26 @@ func runC12(r *core.Run) {
 			}
 			overridden = ra.SerialOverride != 0 || ra.SerialBig != nil
 			desc = fmt.Sprintf("rotate(ow=%v,kg=%v,scn=%q,serial=%d,big=%v)", f.Overwrite, f.KeepGoing, ra.SignCN, ra.SerialOverride, ra.SerialBig)
+			// the store refuses the manifest write of this rotation: its certificate object stays
+			// behind unlisted, and a later rotation derives the same object name
+			manifestRefused := cfg.CA == "gcsca" && r.Chance(8, "manifest-write-refused?")
+			if manifestRefused {
+				a.Plan.SitePrefix, a.Plan.SiteLeft = "disk.Close("+gcsca.ManifestObjectName, 1
+				desc += "+manifest-write-refused"
+			}
+			refuse := !manifestRefused && r.Chance(10, "old-key-destroy-refused?")
+			if refuse {
+				// the key service refuses to destroy the old key version: the last step of a rotation
+				a.Plan.SitePrefix, a.Plan.SiteLeft, a.Decorate = "km.DestroyKeyVersion", 1, true
+				desc += "+destroy-refused"
+			}
 			err, _ = a.Rotate(ra)
+			m.refusedNow = refuse && a.Plan.SiteLeft == 0
+			if m.refusedNow && err != nil && m.primary != "" {
+				m.excused[m.primary] = true
+				r.Probe("rotation-reported-refused-destroy")
+			}
+			a.Plan.SitePrefix, a.Plan.SiteLeft, a.Decorate = "", 0, false
 			made = "rot"
 		default:
 			what := []string{"ca", "keys", "all"}[opKind-7]
@@ -199,6 +225,7 @@ func runC12(r *core.Run) {
 			changes++
 		}
 		c12Check(r, a, m, cfg, made, err == nil, overridden, f, before, desc, &rootStart)
+		m.refusedNow = false
 		stateSeq += fmt.Sprintf("%s:%s:%d|", made, errClass(err, false), len(m.everPrimary))
 		r.State(stateSeq)
 	}
@@ -324,7 +351,7 @@ func c12Check(r *core.Run, a *Authority, m *c12Model, cfg Config, made string, o
 	// key version primary whose name already had a manifest entry, and kept that stored
 	// certificate although the key under that name is a new one.
 	shape := ""
-	if ok && (made == "boot" || made == "rot") && f.KeepGoing && !f.Overwrite && primary != m.primary && bytes.Equal(m.preCerts[primary], der) {
+	if (ok || m.refusedNow) && (made == "boot" || made == "rot") && f.KeepGoing && !f.Overwrite && primary != m.primary && bytes.Equal(m.preCerts[primary], der) {
 		shape = "/keep-going-kept-stale-certificate"
 		r.Probe("keep-going-kept-stale-certificate")
 		m.staleName, m.staleDER, m.staleShape = primary, der, shape
@@ -409,7 +436,7 @@ func c12Check(r *core.Run, a *Authority, m *c12Model, cfg Config, made string, o
 	}
 	// only the current primary signs, among the keys that have been primary in this epoch
 	for _, name := range core.SortedKeys(m.everPrimary) {
-		if name != primary && v.CanSign(name) {
+		if name != primary && !m.excused[name] && v.CanSign(name) {
 			r.Fail("non-primary-signs", made, "%s: former primary %q can still sign (current primary %q)", where, name, primary)
 		}
 	}
